@@ -63,6 +63,11 @@ def scope_tables(thorough):
     out = [(name, spec_of(b)) for name, b in bin_tables(small=not thorough)]
     # coarsened by 2 this is [0,20),[20,60) | [0,9): every non-last width equals 20 but a last bin is longer
     out.append(("variable-coarse-last-longer", {"chr1": [0, 10, 20, 40, 60], "chr2": [0, 8, 9]}))
+    # FIRST multi-bin chromosome uniform, a LATER chromosome variable, no last bin longer than the width: neither these
+    # tables nor their coarsenings by 2, 3, 4 are fixed-width (except uniform-then-variable-6bins by 2, which truly is 20)
+    out.append(("uniform-then-variable-6bins", {"chr1": [0, 10, 20, 25], "chr2": [0, 7, 20, 22]}))
+    out.append(("uniform-then-variable-10bins", {"chr1": [0, 10, 20, 30, 40, 45], "chr2": [0, 7, 20, 22, 31, 36]}))
+    out.append(("onebin-uniform-variable", {"a": [0, 4], "b": [0, 5, 10, 15, 20], "c": [0, 5, 9, 14, 16]}))
     if not thorough:
         out.append(("fixed-3chrom", t_fixed({"chr1": 31, "chr2": 9, "chr3": 20}, 10)))
     else:
@@ -78,6 +83,25 @@ def is_fixed(spec):
         return False
     w = next(iter(ws))
     return all(ed[-1] - ed[-2] <= w for ed in spec.values())
+
+
+UNIFORM_THEN_VARIABLE = ("uniform-then-variable-6bins", "uniform-then-variable-10bins", "onebin-uniform-variable")
+
+
+def true_binsize(cb):
+    """what a truthful bin-size statement about the table cb [(chrom,start,end)] is: w when every bin that is not the
+    last of its chromosome has width w and every last bin is <= w; None (variable) when the non-last widths differ or
+    a last bin is longer; "degenerate" when no chromosome has a non-last bin (nothing to be truthful about)"""
+    per = {}
+    for c, s, e in cb:
+        per.setdefault(c, []).append(e - s)
+    ws = {w for v in per.values() for w in v[:-1]}
+    if not ws:
+        return "degenerate"
+    if len(ws) > 1:
+        return None
+    w = next(iter(ws))
+    return w if all(v[-1] <= w for v in per.values()) else None
 
 
 def looks_fixed_but_is_not(cb):
@@ -313,6 +337,21 @@ def check_file(B, S, f, out_uri, case, prefix="", aggs=None, nontrivial=None, ki
     ok2 = B.check(prefix + "pixels==block-aggregate", pixels_equal(got["pixels"], exp, cols), case,
                   got_rows(got["pixels"], cols), rows_of(exp, cols), nt,
                   signature=f"{prefix}pixels==block-aggregate:{kind}")
+    # what the result says about its own bin width must be true (the fixed-width fast paths of every reader rely on it)
+    truth = true_binsize(cb)
+    said = B.guarded(prefix + "binsize-truthful", case, lambda: (cooler.Cooler(out_uri).binsize,),
+                     signature=f"{prefix}binsize-truthful:exception:{kind}")
+    if said is not None:
+        bs, btype, bsize = _py(said[0]), got["attrs"].get("bin-type"), got["attrs"].get("bin-size")
+        if truth == "degenerate":
+            widest = max(e - s_ for _, s_, e in cb)
+            good = (bs is None and btype == "variable") or (bs is not None and bs >= widest and btype == "fixed" and bsize == bs)
+        elif truth is None:
+            good = bs is None and btype == "variable" and bsize in ("null", None)
+        else:
+            good = bs == truth and btype == "fixed" and bsize == truth
+        B.check(prefix + "binsize-truthful", good, case, dict(binsize=bs, bin_type=btype, bin_size_attr=bsize),
+                dict(true_binsize=truth), nt, signature=f"{prefix}binsize-truthful:{kind}")
     ok3 = True
     for c, a in aggs.items():
         if a != "sum" or c not in cols:
@@ -434,7 +473,7 @@ def main():
     T = B.thorough
     factors = [2, 3, 4, 5, 6] if T else [2, 3, 4, 5]
     tabs = scope_tables(T)
-    B.bound = (f"{len(tabs)} bin tables (<=3 chromosomes, <=15 bins; fixed short/exact last bin, variable, one-bin chromosomes, "
+    B.bound = (f"{len(tabs)} bin tables (<=3 chromosomes, <=15 bins; fixed short/exact last bin, variable, one-bin chromosomes, first chromosome uniform + later chromosome variable, "
                f"coarse table with a longer last bin) x matrices " + ("{empty,diagonal,dense,sparse,corners} x upper/square" if T else "{empty,dense,sparse} upper + dense square") + " x "
                f"k in {factors} (incl. k > bins of a chromosome); partition contract for EVERY chunksize 1..nnz+1 (+2 large); "
                + ("stream equality for EVERY chunksize 1..nnz+1 when nnz<=30 and k<=4, else one per distinct partition; " if T else
@@ -461,10 +500,14 @@ def main():
                     continue
                 if T and n > 12 and mname == "dense" and not symm:
                     continue
+                if not T and tname in UNIFORM_THEN_VARIABLE and (not symm or mname == "empty"):
+                    continue
                 pix = pixels_from_dense(A, symm)
                 S = Scope(B, tname, spec, mname, pix, symm)
                 scopes[(tname, mname, symm)] = S
                 for f in factors:
+                    if not T and tname in UNIFORM_THEN_VARIABLE and f > 4:
+                        continue
                     combo += 1
                     sweep(B, S, f, combo, all_chunksizes=T and S.nnz <= 30 and f <= 4, file_level=2 if T else 1)
 
